@@ -1,5 +1,6 @@
 import AtreeProofs.Props.TransMapDescentInvR
 import AtreeProofs.Map.MapOps
+import AtreeProofs.Props.TransMapDescentClosed
 /-
   MAP DESCENT, round 3 (WP13): THE FINAL ASSEMBLY FOR `Set`.
   Part A/B: `Ob_MapSlab_Set_heap_of_tails'`, `Ob_OrderedMap_set_heap_of_tails'` - the `_of_tails` theorems of
@@ -615,6 +616,33 @@ theorem Ob_OrderedMap_Set_heap_full_of_three (cfg : MCfg) (D : DigestFn (r + 1))
       (haddr _ (mfi_root_id_mem m.d m.root)) (mfi_inl_root m hinv.standalone) hPl)
     (fun ks old root' c1 hq => mfi_QRset hLT hc hk hv hhk m hinv hdig s.ctx ks old root' c1 hq)
     (fun ks old root' c1 hq => mfi_promote_size_lt hLT _ c1 (mfi_QRset hLT hc hk hv hhk m hinv hdig s.ctx ks old root' c1 hq))
+
+/-- the same with the CLOSED element layer `clEnvB cfg retr (r + 1)` (`clEnvB_elemsSpec`): no `ElemsSpec` hypothesis; the
+    leaves satisfy `mcl_PLeaf` (element invariant - which `MapInv` gives -, `uint` ranges of the closed theorems, the
+    storage returns the slabs of the external groups) -/
+theorem Ob_OrderedMap_Set_heap_full_of_three_closed (cfg : MCfg) (D : DigestFn (r + 1)) (k : MKey) (v : Elem)
+    (retr : mcl_Retrs DX)
+    (hLT : legalThreshold cfg.T = true) (hL : cfg.L = r + 1) (hL64 : cfg.L < 2^64) (hT32 : cfg.T < 2^32)
+    (hTe : maxInlineMapElem cfg.T < 2^32) (hcl : cfg.climit < 2^32) (hkd : ∀ lvl, k.dig lvl < 2^64)
+    (hk : KeyOk cfg.T (r + 1) D k) (hv : ValueOkM v)
+    (hS : MSplitTail cfg.T (rsOf (r := r) cfg.T) (MQ cfg.T D)) (hM : MMorTail cfg.T (rsOf (r := r) cfg.T) (MQ cfg.T D))
+    (hR : MRootTailR cfg.T (rsOf (r := r) cfg.T) (MQR cfg.T D))
+    (m : OMap r) (hinv : MapInv cfg.T D m) (hdig : ∀ x ∈ MTree.digests0 m.d m.root, x < 2^64)
+    (hPl : ∀ sl ∈ MTree.leaves m.d m.root, mcl_PLeaf cfg k v retr D sl.elems)
+    (s : MHSt r) (x0 : Option DX) (depth : Nat) (hd : m.d ≤ depth)
+    (hheld : MHolds s.heap m.d m.root x0) (hnd : (md_ids m.d m.root).Nodup)
+    (haddr : ∀ id ∈ md_ids m.d m.root, id.addr = cfg.addr) (hff : mds_FreshFree cfg.addr s) :
+    match OMap.set cfg m k v s.ctx with
+    | .ok (old, m', c') =>
+      ∃ s' x', OrderedMap_set (envD cfg.T (clEnvB cfg retr (r + 1)) (rsOf cfg.T)) depth (md_map m s) (.key k) (.val v) =
+          some (old.map .val, none, md_map m' s') ∧
+        s'.ctx = c' ∧ s'.popped = s.popped ∧ mds_RootPreR (MQR cfg.T D) cfg.addr s' m' x' ∧
+        mds_Delta s.heap s'.heap (md_ids m.d m.root) (md_ids m'.d m'.root)
+    | .error e =>
+      ∃ M', OrderedMap_set (envD cfg.T (clEnvB cfg retr (r + 1)) (rsOf cfg.T)) depth (md_map m s) (.key k) (.val v) =
+        some (none, some e, M') :=
+  Ob_OrderedMap_Set_heap_full_of_three cfg D k v (mcl_PLeaf cfg k v retr D) (clEnvB cfg retr (r + 1)) hLT hL hk hv (hkd 0)
+    (clEnvB_elemsSpec cfg k v retr D hL hL64 hT32 hTe hcl hkd hLT) hS hM hR m hinv hdig hPl s x0 depth hd hheld hnd haddr hff
 
 end
 
